@@ -2,7 +2,7 @@
 (* C13, layout half: what "meaningless layout" is.
 
    A document is a sequence of lines
-       [id, indent, class, endin, tws, eol]
+       [id, indent, class, endin, open, tws, eol]
    id     original line number (0 for an inserted line) - edits address lines by id
    indent number of leading spaces
    class  "code"      a logical line starts here
@@ -13,6 +13,8 @@
                       with a binary operator that continues the previous line
    endin  the END of the line is inside a string literal (or directly behind a continuation marker):
           nothing may be appended there
+   open   the END of the line is inside an open bracket (the next line is "cont"): white space there is
+          meaningless, but a comment would become part of the multi-line expression's text
    tws    amount of trailing white space added, eol: an end-of-line comment was added
 
    The offside rule is an indent-stack machine over the lines that start a logical line; it yields
@@ -58,29 +60,29 @@ LexerBlocks(doc) == Offside(doc, 1, <<0>>, "lexer")
 Consistent(doc)  == \A j \in 1..Len(Blocks(doc)) : Blocks(doc)[j].t # "ERROR"
 
 (* ------------------------------ edits ------------------------------ *)
-(* Where an edit is meaningless layout.  c / endin describe the line the edit touches
-   (for "blank": the line the new line is put in front of; "eof" = appended at the end).        *)
-NeutralAt(op, c, endin, ver) ==
-  CASE op = "blank"             -> c \notin {"instring", "cont"}
-    [] op \in {"tws", "twstab"} -> ~endin
-    [] op = "eol"               -> ver = "2.x" /\ c = "code" /\ ~endin
+(* Where an edit is meaningless layout.  l describes the line the edit touches: [class, endin, open]
+   (for "blank": the line the new line is put in front of; class "eof" = appended at the end).  *)
+NeutralAt(op, l, ver) ==
+  CASE op = "blank"             -> l.class \notin {"instring", "cont"}
+    [] op \in {"tws", "twstab"} -> ~l.endin
+    [] op = "eol"               -> ver = "2.x" /\ l.class = "code" /\ ~l.endin /\ ~l.open
     [] op = "scale"             -> TRUE
     [] OTHER                    -> FALSE
 
 HasId(doc, id) == \E i \in 1..Len(doc) : doc[i].id = id
 IdxOf(doc, id) == CHOOSE i \in 1..Len(doc) : doc[i].id = id
-BlankLine(k)   == [id |-> 0, indent |-> k, class |-> "blank", endin |-> FALSE, tws |-> 0, eol |-> FALSE]
+BlankLine(k)   == [id |-> 0, indent |-> k, class |-> "blank", endin |-> FALSE, open |-> FALSE, tws |-> 0, eol |-> FALSE]
 InsertAt(s, i, e) == SubSeq(s, 1, i - 1) \o <<e>> \o SubSeq(s, i, Len(s))
 
 (* e = [op, id, k]; endid is the id that stands for "after the last line" *)
 EditEnabled(doc, e, ver, endid) ==
-  CASE e.op = "blank" -> \/ e.id = endid /\ (Len(doc) = 0 \/ ~doc[Len(doc)].endin)
+  CASE e.op = "blank" -> \/ e.id = endid /\ (Len(doc) = 0 \/ (~doc[Len(doc)].endin /\ ~doc[Len(doc)].open))
                          \/ /\ HasId(doc, e.id)
-                            /\ LET l == doc[IdxOf(doc, e.id)] IN NeutralAt("blank", l.class, l.endin, ver)
+                            /\ NeutralAt("blank", doc[IdxOf(doc, e.id)], ver)
     [] e.op = "scale" -> e.k \in {2, 3}
     [] OTHER -> /\ HasId(doc, e.id)
                 /\ LET l == doc[IdxOf(doc, e.id)] IN
-                   NeutralAt(e.op, l.class, l.endin, ver) /\ (e.op = "eol" => ~l.eol)
+                   NeutralAt(e.op, l, ver) /\ (e.op = "eol" => ~l.eol)
 
 ApplyEdit(doc, e, endid) ==
   CASE e.op = "blank" -> IF e.id = endid THEN Append(doc, BlankLine(e.k))
@@ -102,7 +104,8 @@ StringsUntouched(orig, doc) ==
   /\ \A i \in 1..Len(doc) :
        /\ doc[i].class = "instring" => /\ doc[i].id # 0
                                        /\ doc[i].indent = OrigLine(orig, doc[i].id).indent
-                                       /\ (i > 1 => doc[i - 1].id # 0 \/ doc[i - 1].class # "blank")
+                                       /\ (i > 1 => doc[i - 1].id # 0)
        /\ doc[i].endin => doc[i].tws = 0 /\ ~doc[i].eol
+       /\ doc[i].open => ~doc[i].eol
   /\ \A i \in 1..Len(doc) : doc[i].class = "cont" /\ i > 1 => doc[i - 1].id # 0
 =============================================================================
